@@ -5,6 +5,7 @@ import (
 	"go/token"
 	"go/types"
 	"sort"
+	"regexp"
 	"strings"
 
 	"golang.org/x/tools/go/ssa"
@@ -562,4 +563,182 @@ func stripLoadOfAlloc(v ssa.Value) ssa.Value {
 		}
 	}
 	return v
+}
+
+// ProvVariants returns the provenance string together with every string obtained from it
+// by exchanging the operands of commutative operations ((A+B), (A*B), (A&B), (A|B),
+// (A^B)). Rules that compare a provenance string with an expected shape use it so
+// that `4*i` and `i*4` are the same expression to them. At most 512 variants.
+func ProvVariants(s string) []string {
+	type group struct{ open, op, close int }
+	var groups []group
+	var stack []int
+	for i := 0; i < len(s); i++ {
+		switch s[i] {
+		case '(':
+			stack = append(stack, i)
+		case ')':
+			if len(stack) == 0 {
+				continue
+			}
+			o := stack[len(stack)-1]
+			stack = stack[:len(stack)-1]
+			// a binary group: exactly one top-level commutative operator inside, and the '(' is
+			// not a call's (preceded by an identifier character)
+			if o > 0 {
+				c := s[o-1]
+				if c == '_' || c == '.' || (c >= 'a' && c <= 'z') || (c >= 'A' && c <= 'Z') || (c >= '0' && c <= '9') || c == ']' || c == '}' {
+					continue
+				}
+			}
+			depth, opAt, ops := 0, -1, 0
+			for j := o + 1; j < i; j++ {
+				switch s[j] {
+				case '(', '[', '{':
+					depth++
+				case ')', ']', '}':
+					depth--
+				case '+', '*', '&', '|', '^':
+					// binary only when it follows the end of an operand (`&x` and `*p` are unary)
+					prev := s[j-1]
+					endsOperand := prev == ')' || prev == ']' || prev == '}' || prev == '_' || (prev >= '0' && prev <= '9') || (prev >= 'a' && prev <= 'z') || (prev >= 'A' && prev <= 'Z') || prev == '@'
+					if depth == 0 && j > o+1 && endsOperand && !(s[j] == '&' && j+1 < i && s[j+1] == '^') {
+						// `|` also separates the alternatives of iter({a|b}) but those are inside { }
+						opAt = j
+						ops++
+					}
+				case '-', '/', '%', '<', '>', '=', '!', ',':
+					if depth == 0 {
+						ops += 2 // not a single commutative operation
+					}
+				}
+			}
+			if ops == 1 && opAt > o+1 && opAt < i-1 {
+				groups = append(groups, group{o, opAt, i})
+			}
+		}
+	}
+	out := []string{s}
+	if len(groups) == 0 {
+		return out
+	}
+	// swapping one group does not move the others' relative nesting: rebuild recursively
+	var build func(lo, hi int, mask int) string
+	build = func(lo, hi int, mask int) string {
+		var b strings.Builder
+		i := lo
+		for i < hi {
+			swapped := false
+			for gi, g := range groups {
+				if g.open == i && g.close < hi {
+					l := build(g.open+1, g.op, mask)
+					r := build(g.op+1, g.close, mask)
+					if mask&(1<<uint(gi)) != 0 {
+						l, r = r, l
+					}
+					b.WriteByte('(')
+					b.WriteString(l)
+					b.WriteByte(s[g.op])
+					b.WriteString(r)
+					b.WriteByte(')')
+					i = g.close + 1
+					swapped = true
+					break
+				}
+			}
+			if !swapped {
+				b.WriteByte(s[i])
+				i++
+			}
+		}
+		return b.String()
+	}
+	seen := map[string]bool{s: true}
+	add := func(mask int) {
+		v := build(0, len(s), mask)
+		if !seen[v] {
+			seen[v] = true
+			out = append(out, v)
+		}
+	}
+	// systematic exchanges first (every product, every sum, everything): they undo a
+	// uniform change of style at once
+	all, byOp := 0, map[byte]int{}
+	for gi, g := range groups {
+		all |= 1 << uint(gi)
+		byOp[s[g.op]] |= 1 << uint(gi)
+	}
+	add(all)
+	for _, m := range byOp {
+		add(m)
+		add(all &^ m)
+	}
+	if len(groups) <= 12 {
+		for mask := 1; mask < 1<<uint(len(groups)); mask++ {
+			add(mask)
+		}
+	} else {
+		// too many to enumerate: single and pairwise exchanges on top of the systematic ones
+		for a := 0; a < len(groups); a++ {
+			add(1 << uint(a))
+			add(all &^ (1 << uint(a)))
+			for b := a + 1; b < len(groups); b++ {
+				add(1<<uint(a) | 1<<uint(b))
+			}
+		}
+	}
+	return out
+}
+
+// ProvMatch: the regular expression matches the provenance string or one of its
+// commutative variants.
+func ProvMatch(re *regexp.Regexp, s string) bool {
+	if re.MatchString(s) {
+		return true
+	}
+	for _, v := range ProvVariants(s) {
+		if re.MatchString(v) {
+			return true
+		}
+	}
+	return false
+}
+
+// ProvHas: the provenance string, or one of its commutative variants, contains sub.
+func ProvHas(s, sub string) bool {
+	if strings.Contains(s, sub) {
+		return true
+	}
+	for _, v := range ProvVariants(s) {
+		if strings.Contains(v, sub) {
+			return true
+		}
+	}
+	return false
+}
+
+// ProvEq: the provenance string or one of its commutative variants equals want.
+func ProvEq(s, want string) bool {
+	if s == want {
+		return true
+	}
+	for _, v := range ProvVariants(s) {
+		if v == want {
+			return true
+		}
+	}
+	return false
+}
+
+// ProvFind: the submatches of the first commutative variant the expression matches.
+func ProvFind(re *regexp.Regexp, s string) []string {
+	if m := re.FindStringSubmatch(s); m != nil {
+		return m
+	}
+	for _, v := range ProvVariants(s) {
+		if m := re.FindStringSubmatch(v); m != nil {
+			return m
+		}
+	}
+	return nil
 }
